@@ -69,10 +69,6 @@ theorem wf_attach (t : Tree) (a p : Pid) (h : WF t) : WF (t.attach a p).1 := by
     obtain ⟨n0, hn0, rfl⟩ := Option.map_eq_some_iff.mp hk
     simpa using h.key_id k n0 hn0
   · simpa using h.counter
-  · exact names_live_modNode _ _ _ (fun _ => rfl) (fun _ => rfl)
-      (names_live_modNode _ _ _ (fun _ => rfl) (fun _ => rfl)
-      (names_live_modNode _ _ _ (fun _ => rfl) (fun _ => rfl)
-      (names_live_modNode _ _ _ (fun _ => rfl) (fun _ => rfl) h.names_live)))
   · intro x nx w pw hx hw
     rw [hg] at hx
     obtain ⟨n0, hn0, rfl⟩ := Option.map_eq_some_iff.mp hx
